@@ -71,7 +71,7 @@ def setup():
         idx = np.asarray(idx)
         nn = int((~np.isnan(u)).sum())
         k = min(bs, nn)
-        rows = idx.reshape(len(idx), -1) if u.ndim > 1 else idx.reshape(-1, 1)
+        rows = idx.reshape(len(idx), u.ndim) if u.ndim > 1 else idx.reshape(-1, 1)
         tup = [tuple(r) for r in rows.tolist()]
         where = "utilities=%r batch_size=%d method=%s -> %r" % (u.tolist() if u.size <= 30 else u.shape, bs, method, idx.tolist())
         if len(tup) != k:
@@ -201,8 +201,8 @@ def run_case(desc):
             obs = {"a": a.tolist()}
         elif mode == "batch":
             a, fam = _array(rng, allow_inf=False)
-            if np.isnan(a).all():
-                a.flat[0] = 0.0
+            if (desc["seed"] >> 7) % 16 == 0:
+                a[...] = np.nan          # nothing selectable: zero positions, zero utility rows
             bs = int(rng.randint(1, a.size + 3))
             ru = bool(rng.rand() < 0.8)
             r1 = U.simple_batch(a.copy(), random_state=s, batch_size=bs, return_utilities=ru)
@@ -211,6 +211,10 @@ def run_case(desc):
                 viol.append({"component": "simple_batch", "kind": "not-reproducible", "detail": "a=%r seed=%d" % (a.tolist(), s)})
             fin = a[~np.isnan(a)]
             nontrivial = bool(np.isnan(a).any() or (fin == fin.max()).sum() >= 2)
+            if not fin.size:
+                got = np.asarray(r1[0] if ru else r1)
+                if got.shape != ((0,) if a.ndim == 1 else (0, a.ndim)) or (ru and np.asarray(r1[1]).shape != (0,) + a.shape):
+                    viol.append({"component": "simple_batch", "kind": "all-nan-not-empty", "detail": "a shape %s -> %r" % (a.shape, [np.asarray(x).shape for x in (r1 if ru else [r1])])})
             key = "batch|%s|%s|nan%d|b%d|%d" % (a.shape, fam, int(np.isnan(a).sum()), bs, s % 997)
             obs = {"a": a.tolist(), "batch_size": bs, "idx": np.asarray(r1[0] if ru else r1).tolist()}
         else:  # proportional
